@@ -1,5 +1,6 @@
 import Canopy.Proof.SmtHash
 import Canopy.Proof.SmtPar
+import Canopy.Proof.SmtCache
 import Canopy.Gen.SmtFacts
 /-!
 # C08 — the state root is a pure, collision-free function of the state
@@ -27,6 +28,13 @@ What is proved here, for every key length `n > 0`, every tree and every history:
                            its 3-bit prefix and taken in ANY order, borders out) returns exactly what the sequential
                            `Commit` returns, under `ParOK` (one valid operation per key, nothing reserved, no key equal
                            to a synthetic border); `root_is_pure` puts sequential, parallel and batching together
+
+* `node_cache_coherent`, `node_cache_transparent`   the in-memory node cache of `setNode`/`getNode`/`delNode` (model
+                           `Model/SmtCache.lean`, rules taken from generated facts) is coherent in every reachable state
+                           for EVERY capacity: a cached entry is the store's latest node, a read through the cache is a
+                           read from the store, and the store evolves as if there were no cache — so the tree algorithm
+                           (which the theorems above are about) is unaffected by the cache and by `MaxCacheSize`;
+                           `admit_only_below_capacity_incoherent` is the counterexample for the mutated admission rule
 
 Not proved here (covered by the correspondence run only, see `checks/C08.py`): the L2 refinement (node table,
 traversal stack, rehash-skipping) of `smt.go` to these L1 functions, and the goroutine level of `CommitParallel`
@@ -185,6 +193,63 @@ example :
     (match stepTop ((empty 5).run ((borders 5).map fun x => Op.set x borderVal)) (.set b [9]) with
       | some t => ((borders 5).foldl (fun s x => delete x s) t).keys.contains b
       | none => true) = false := by decide
+
+/-! ### the node cache -/
+section NodeCache
+open Cache
+
+/-- the cache discipline store/smt.go has now, read off `setNode` / `getNode` / `delNode` by `facts` on every run -/
+def sourceDiscipline : Discipline :=
+  fromFacts Gen.SmtFacts.setNodeDropsAtCapacity Gen.SmtFacts.setNodeWritesCacheAlways
+    Gen.SmtFacts.setNodeWritesCacheBelowCapacity Gen.SmtFacts.getNodeAdmitsAlways
+    Gen.SmtFacts.getNodeAdmitsBelowCapacity Gen.SmtFacts.delNodeEvicts
+
+/-- **Tie to the source.** `setNode` writes the cache unconditionally (after dropping a full cache), `delNode` evicts
+unconditionally, `getNode` admits below capacity, and no other function of smt.go touches individual cache entries: the
+source's discipline is the `original` one of the model. (A change of any of these statements changes the generated facts
+and breaks this obligation.) -/
+theorem source_cache_discipline :
+    Gen.SmtFacts.setNodeWritesCacheAlways = true ∧ Gen.SmtFacts.delNodeEvicts = true
+    ∧ Gen.SmtFacts.setNodeDropsAtCapacity = true ∧ Gen.SmtFacts.getNodeAdmitsBelowCapacity = true
+    ∧ Gen.SmtFacts.nodeCacheEntriesTouchedOnlyByGetSetDel = true ∧ 1 ≤ Gen.SmtFacts.maxCacheSize := by decide
+
+/-- **Cache coherence**, for the rules of the source, every node type, every capacity (`MaxCacheSize` is just one of
+them), every initial node store and every sequence of `setNode` / `delNode` / `getNode` / whole-cache resets: every
+cached entry equals the store's latest node for that key. -/
+theorem node_cache_coherent {K V : Type} [DecidableEq K] (cap : Nat) (store₀ : K → Option V) (as : List (Acc K V)) :
+    Coherent (run sourceDiscipline cap ⟨store₀, []⟩ as) :=
+  coherent_run (fun _ _ => by simp [sourceDiscipline, fromFacts, source_cache_discipline.1])
+    (by simp [sourceDiscipline, fromFacts, source_cache_discipline.2.1]) cap as (coherent_nil store₀)
+
+/-- **The cache is transparent**: in every reachable state a read through the cache returns what the store holds, and the
+store after any access sequence is what it would be without a cache — independent of the capacity. The tree algorithm
+only reaches its nodes through these functions, so roots and proofs do not depend on the cache. -/
+theorem node_cache_transparent {K V : Type} [DecidableEq K] (cap : Nat) (store₀ : K → Option V) (as : List (Acc K V))
+    (k : K) :
+    (getNode sourceDiscipline cap (run sourceDiscipline cap ⟨store₀, []⟩ as) k).1 = runStore store₀ as k
+    ∧ (run sourceDiscipline cap ⟨store₀, []⟩ as).store = runStore store₀ as := by
+  have hs := run_store sourceDiscipline cap as (⟨store₀, []⟩ : St K V)
+  exact ⟨by rw [getNode_eq_store _ _ (node_cache_coherent cap store₀ as), hs], hs⟩
+
+/-- non-vacuity: at capacity 2 the source's rules do drop and re-admit, and the overwrite is seen -/
+example :
+    let s := run original 2 (⟨fun _ => none, []⟩ : St Nat Nat) [.set 0 10, .set 1 11, .set 0 20, .get 1]
+    s.cache = [(1, 11), (0, 20)] ∧ (getNode original 2 s 0).1 = some 20 := by decide
+
+/-- **The mutated admission rule is incoherent** (kept as a theorem about the mutated rule): with "cache the written node
+only while there is room", at capacity 1, writing a key, then overwriting it leaves the old node in the cache — the
+next read returns the stale node although the store holds the new one. This is the seeded change `pending2-C08`
+(replayed on the real code by the corpus scenario `overwrite-with-full-node-cache`). -/
+theorem admit_only_below_capacity_incoherent :
+    let s := run admitOnlyBelowCapacity 1 (⟨fun _ => none, []⟩ : St Nat Nat) [.set 0 10, .set 0 20]
+    (getNode admitOnlyBelowCapacity 1 s 0).1 = some 10 ∧ s.store 0 = some 20 ∧ ¬ Coherent s := by
+  refine ⟨by decide, by decide, ?_⟩
+  intro h
+  have := h 0 10 (by decide)
+  revert this
+  decide
+
+end NodeCache
 
 /-! ### tie to the source: the constants the model hard-codes are the ones `store/smt.go` has today
 (`Canopy/Gen/SmtFacts.lean` is regenerated from the working tree on every run) -/
